@@ -210,9 +210,26 @@ func (s *Synchronizer) OnRemoteTimeout(timeout hotstuff.TimeoutMsg) {
 	currView := s.state.View()
 	defer s.timeouts.deleteOldViews(currView)
 
+	// the signatures must come from the sender itself: a signature of another replica, replayed under
+	// the sender's ID, would otherwise be collected next to that replica's own timeout.
+	if !signedOnlyBy(timeout.ViewSignature, timeout.ID) {
+		s.logger.Infof("View timeout signature is not a signature by replica %d", timeout.ID)
+		return
+	}
 	if err := s.auth.Verify(timeout.ViewSignature, timeout.View.ToBytes()); err != nil {
 		s.logger.Infof("View timeout signature could not be verified: %v", err)
 		return
+	}
+	if s.config.HasAggregateQC() {
+		// the message signature goes into the aggregate QC: a bad one would spoil the whole certificate.
+		if !signedOnlyBy(timeout.MsgSignature, timeout.ID) {
+			s.logger.Infof("Timeout message signature is not a signature by replica %d", timeout.ID)
+			return
+		}
+		if err := s.auth.Verify(timeout.MsgSignature, timeout.ToBytes()); err != nil {
+			s.logger.Infof("Timeout message signature could not be verified: %v", err)
+			return
+		}
 	}
 	s.logger.Debug("OnRemoteTimeout (advancing view): ", timeout)
 	s.advanceView(timeout.SyncInfo)
@@ -234,6 +251,15 @@ func (s *Synchronizer) OnRemoteTimeout(timeout hotstuff.TimeoutMsg) {
 
 	s.logger.Debugf("OnRemoteTimeout (second advance)")
 	s.advanceView(si)
+}
+
+// signedOnlyBy reports whether the signature names exactly one participant, the given replica.
+func signedOnlyBy(sig hotstuff.QuorumSignature, id hotstuff.ID) bool {
+	if sig == nil {
+		return false
+	}
+	participants := sig.Participants()
+	return participants.Len() == 1 && participants.Contains(id)
 }
 
 // OnNewView handles an incoming consensus.NewViewMsg
